@@ -32,7 +32,18 @@ def programs(ctx):
     out = []
     for i in range(n):
         atoms = ['a', 'b'] if rng.random() < 0.75 else ['a', 'b', 'c']
-        rules = [head_rule(rng, atoms, rng.randint(1, depth)) for _ in range(rng.choice([1, 1, 2, 3]))]
+        fatoms = atoms if rng.random() < 0.75 else ['-a' if x == 'a' else x for x in atoms]      # classically negated atoms in head formulas
+        rules = []
+        for _ in range(rng.choice([1, 1, 2, 3])):
+            r = head_rule(rng, fatoms, rng.randint(1, depth))
+            if rules and rng.random() < 0.5:
+                # a head formula related to an earlier one (equal, sub-formula, weak/strong or dual sibling): shared formula objects
+                g = gen.related(rng, rng.choice(rules)['head'][1])
+                if not findings.fml_has(g, ('prev', 'wprev', 'since', 'trigger', 'initially', 'seqprev', 'seqwprev', 'impr', 'impl', 'eqv')):
+                    r = dict(r, head=('tel', g))
+            rules.append(r)
+        if fatoms is not atoms and rng.random() < 0.5:
+            rules.append({'part': 'always', 'head': ('choice', ['a']), 'body': []})
         k = rng.random()
         if k < 0.35:
             rules += gen.core_program(rng, atoms, (1, 2))
